@@ -359,5 +359,29 @@ func listOracle(c *oracleCtx) {
 
 func init() {
 	oracles["C05"] = listOracle
-	oracles["C09"] = listOracle
+	oracles["C09"] = func(c *oracleCtx) {
+		// deriving operations on both container kinds: the list pool and the object pool
+		if c.filter != nil {
+			lf, of := map[string]bool{}, map[string]bool{}
+			for id := range c.filter {
+				if strings.Contains(id, "|Set") || strings.Contains(id, "|Merge") || strings.Contains(id, "|Pluck") || strings.Contains(id, "|Unset") || strings.Contains(id, "|KeyOf") || strings.Contains(id, "|Getters") || strings.Contains(id, "|Clear:") && strings.Count(id, ":") > 3 {
+					of[id] = true
+				} else {
+					lf[id] = true
+				}
+			}
+			c.filter = lf
+			listOracle(c)
+			c.filter = of
+			if len(of) > 0 {
+				c06Oracle(c)
+			}
+			return
+		}
+		listOracle(c)
+		r1, b1 := c.rule, c.bound
+		c06Oracle(c)
+		c.rule = r1 + " || objects: " + c.rule
+		c.bound = b1 + " || objects: " + c.bound
+	}
 }
